@@ -145,5 +145,180 @@ theorem journalStep_lt (st : PState σ) (h : st.current.ty ≠ .eof) :
           split <;> (rename_i heq; rw [heq] at this; exact this)
         · exact skipToNextLine_lt E hd (error st _) h
 
+/-! ### fuel never runs out -/
+
+omit hd in
+theorem eof_of_measure_le_zero {st : PState σ} (h : measure E st ≤ 0) : st.current.ty = .eof :=
+  (measure_zero_iff E st).1 (by omega)
+
+omit hd in
+theorem isLineEnd_of_eof {t : Token} (h : t.ty = .eof) : isLineEnd t = true := by
+  unfold isLineEnd; simp [h]
+
+theorem skipLoopF_fuel (n m : Nat) (st : PState σ) (hn : measure E st ≤ n) (hm : measure E st ≤ m) :
+    skipLoopF E n st = skipLoopF E m st := by
+  induction n generalizing m st with
+  | zero =>
+    have he := isLineEnd_of_eof (eof_of_measure_le_zero E hn)
+    cases m <;> simp [skipLoopF, he]
+  | succ n ih =>
+    cases m with
+    | zero =>
+      have he := isLineEnd_of_eof (eof_of_measure_le_zero E hm)
+      simp [skipLoopF, he]
+    | succ m =>
+      unfold skipLoopF
+      split
+      · rfl
+      · rename_i h
+        have := advance_lt E hd st (isLineEnd_false h).2
+        exact ih m _ (by omega) (by omega)
+
+theorem skipUntilF_fuel (b : Bool) (n m : Nat) (st : PState σ) (hn : measure E st ≤ n) (hm : measure E st ≤ m) :
+    skipUntilF E b n st = skipUntilF E b m st := by
+  induction n generalizing m st with
+  | zero =>
+    have he := isLineEnd_of_eof (eof_of_measure_le_zero E hn)
+    cases m <;> simp [skipUntilF, he]
+  | succ n ih =>
+    cases m with
+    | zero =>
+      have he := isLineEnd_of_eof (eof_of_measure_le_zero E hm)
+      simp [skipUntilF, he]
+    | succ m =>
+      unfold skipUntilF
+      split
+      · rfl
+      · rename_i h
+        have := advance_lt E hd st (isLineEnd_false (t := st.current) (by grind)).2
+        exact ih m _ (by omega) (by omega)
+
+theorem subValueF_fuel (n m : Nat) (st : PState σ) (acc) (hn : measure E st ≤ n) (hm : measure E st ≤ m) :
+    subValueF E n st acc = subValueF E m st acc := by
+  induction n generalizing m st acc with
+  | zero =>
+    have he := isLineEnd_of_eof (eof_of_measure_le_zero E hn)
+    cases m <;> simp [subValueF, he]
+  | succ n ih =>
+    cases m with
+    | zero =>
+      have he := isLineEnd_of_eof (eof_of_measure_le_zero E hm)
+      simp [subValueF, he]
+    | succ m =>
+      unfold subValueF
+      split
+      · rfl
+      · rename_i h
+        have := advance_lt E hd st (isLineEnd_false (t := st.current) (by grind)).2
+        exact ih m _ _ (by omega) (by omega)
+
+theorem includePathF_fuel (n m : Nat) (st : PState σ) (acc) (hn : measure E st ≤ n) (hm : measure E st ≤ m) :
+    includePathF E n st acc = includePathF E m st acc := by
+  induction n generalizing m st acc with
+  | zero =>
+    have he := isLineEnd_of_eof (eof_of_measure_le_zero E hn)
+    cases m <;> simp [includePathF, he]
+  | succ n ih =>
+    cases m with
+    | zero =>
+      have he := isLineEnd_of_eof (eof_of_measure_le_zero E hm)
+      simp [includePathF, he]
+    | succ m =>
+      unfold includePathF
+      split
+      · rfl
+      · rename_i h
+        have := advance_lt E hd st (isLineEnd_false (t := st.current) (by grind)).2
+        exact ih m _ _ (by omega) (by omega)
+
+theorem postingsF_fuel (n m : Nat) (st : PState σ) (hn : measure E st ≤ n) (hm : measure E st ≤ m) :
+    postingsF E n st = postingsF E m st := by
+  induction n generalizing m st with
+  | zero =>
+    have he := eof_of_measure_le_zero E hn
+    cases m <;> simp [postingsF, he]
+  | succ n ih =>
+    cases m with
+    | zero =>
+      have he := eof_of_measure_le_zero E hm
+      simp [postingsF, he]
+    | succ m =>
+      unfold postingsF
+      split
+      · rfl
+      · rename_i h
+        have hi : st.current.ty = .indent := by simpa using h
+        have h1 := parsePosting_lt E hd st hi
+        simp only
+        have h2 : measure E (if (parsePosting E st).2.current.ty = .newline then advance E (parsePosting E st).2
+            else (parsePosting E st).2) ≤ measure E (parsePosting E st).2 := by
+          split
+          · rename_i hnl; have := advance_lt E hd (parsePosting E st).2 (by simp [hnl]); omega
+          · exact Nat.le_refl _
+        rw [ih m _ (by omega) (by omega)]
+
+theorem parseSubdirectivesF_fuel (n m : Nat) (st : PState σ) (mp) (hn : measure E st ≤ n) (hm : measure E st ≤ m) :
+    parseSubdirectivesF E n st mp = parseSubdirectivesF E m st mp := by
+  induction n generalizing m st mp with
+  | zero =>
+    have he := eof_of_measure_le_zero E hn
+    cases m <;> simp [parseSubdirectivesF, he]
+  | succ n ih =>
+    cases m with
+    | zero =>
+      have he := eof_of_measure_le_zero E hm
+      simp [parseSubdirectivesF, he]
+    | succ m =>
+      unfold parseSubdirectivesF
+      split
+      · rfl
+      · rename_i h
+        have hnl : st.current.ty = .newline := by simpa using h
+        have h1 := advance_lt E hd st (by simp [hnl])
+        simp only
+        split
+        · rfl
+        · rename_i h2
+          have hi : (advance E st).current.ty = .indent := by simpa using h2
+          have h3 := advance_lt E hd (advance E st) (by simp [hi])
+          split
+          · rename_i hc
+            have := advance_lt E hd (advance E (advance E st)) (by simp [hc])
+            exact ih m _ _ (by omega) (by omega)
+          · split
+            · exact ih m _ _ (by omega) (by omega)
+            · split
+              · rename_i ht
+                have := advance_lt E hd (advance E (advance E st)) (by simp [ht])
+                exact ih m _ _ (by omega) (by omega)
+              · split
+                · rename_i hdv
+                  have h4 := advance_lt E hd (advance E (advance E st)) (by simp [hdv])
+                  have h5 := subValueF_le E hd (fuelOf E (advance E (advance E (advance E st))))
+                    [] (advance E (advance E (advance E st)))
+                  exact ih m _ _ (by omega) (by omega)
+                · have := skipToNextLine_le E hd (advance E (advance E st))
+                  exact ih m _ _ (by omega) (by omega)
+
+theorem parseJournalF_fuel (n m : Nat) (st : PState σ) (hn : measure E st ≤ n) (hm : measure E st ≤ m) :
+    parseJournalF E n st = parseJournalF E m st := by
+  induction n generalizing m st with
+  | zero =>
+    have he := eof_of_measure_le_zero E hn
+    cases m <;> simp [parseJournalF, he]
+  | succ n ih =>
+    cases m with
+    | zero =>
+      have he := eof_of_measure_le_zero E hm
+      simp [parseJournalF, he]
+    | succ m =>
+      unfold parseJournalF
+      split
+      · rfl
+      · rename_i h
+        have h1 := journalStep_lt E hd st h
+        simp only
+        rw [ih m _ (by omega) (by omega)]
+
 end
 end HL.Parser
